@@ -48,12 +48,14 @@ uint8_t vp_c11_msg_alive(uint32_t i) { ASSUME(i < C11_DELCAP); return c11_dl[i].
 /* ---- symbolic names: a FRESH block per element whose content is selected from a constant table by a symbolic index
    (pointers stay concrete, only characters and length are symbolic: comparisons become plain bit-vector formulas) ---- */
 #define C11_NAMELEN 18
-static const uint8_t c11_tags[6][C11_NAMELEN + 1] = { "message", "sent", "received", "forwarded", "body", "private" };
-static const uint8_t c11_taglen[6] = { 7, 4, 8, 9, 4, 7 };
-static const uint8_t c11_nss[5][C11_NAMELEN + 1] = { "urn:xmpp:carbons:2", "urn:xmpp:forward:0", "jabber:client", "urn:xmpp:carbons:1", "" };
-static const uint8_t c11_nslen[5] = { 18, 18, 13, 18, 0 };
-void vp_c11_pick_tag(char *out, uint32_t idx) { ASSUME(idx < 6); QAD *d = qs_new(c11_taglen[idx], 9); uint16_t *p = qs_chars(d); for (uint32_t i = 0; i < 9; i++) p[i] = c11_tags[idx][i]; *(QAD**)out = d; }
-void vp_c11_pick_ns(char *out, uint32_t idx) { ASSUME(idx < 5); QAD *d = qs_new(c11_nslen[idx], C11_NAMELEN); uint16_t *p = qs_chars(d); for (uint32_t i = 0; i < C11_NAMELEN; i++) p[i] = c11_nss[idx][i]; *(QAD**)out = d; }
+#define C11_NTAG 8
+#define C11_NNS 5
+static const uint8_t c11_tags[C11_NTAG][C11_NAMELEN + 1] = { "message", "sent", "received", "forwarded", "body", "private", "messages", "" };
+static const uint8_t c11_taglen[C11_NTAG] = { 7, 4, 8, 9, 4, 7, 8, 0 };
+static const uint8_t c11_nss[C11_NNS][C11_NAMELEN + 1] = { "urn:xmpp:carbons:2", "urn:xmpp:forward:0", "jabber:client", "urn:xmpp:carbons:1", "" };
+static const uint8_t c11_nslen[C11_NNS] = { 18, 18, 13, 18, 0 };
+void vp_c11_pick_tag(char *out, uint32_t idx) { ASSUME(idx < C11_NTAG); QAD *d = qs_new(c11_taglen[idx], 9); for (uint32_t i = 0; i < 9; i++) SD(d)[i] = c11_tags[idx][i]; *(QAD**)out = d; }
+void vp_c11_pick_ns(char *out, uint32_t idx) { ASSUME(idx < C11_NNS); QAD *d = qs_new(c11_nslen[idx], C11_NAMELEN); for (uint32_t i = 0; i < C11_NAMELEN; i++) SD(d)[i] = c11_nss[idx][i]; *(QAD**)out = d; }
 /* logging cut: the text of V2's "carbon copy from attacker" notice is not built (QStringBuilder<QStringBuilder<char16_t[53],QString>,char16_t[31]>::convertTo<QString>) */
 void _ZNK14QStringBuilderIS_IA53_Ds7QStringEA31_DsE9convertToIS1_EET_v(char *ret, char *self) { *(QAD**)ret = SHARED_NULL; }
 /* ---- DOM helper: keep only the first n children (children are appended at concrete indices, the count is symbolic) ---- */
